@@ -308,6 +308,11 @@ class Backend(ABC):
             Exception
         ) as e:  # enrich all other exceptions with Sigma-specific context information
             msg = f" (while {error_state} rule {str(rule.source)})"
+            if self.collect_errors and isinstance(e, NotImplementedError):
+                # A rule that uses a feature not supported by the backend can't be converted. If
+                # errors are collected this must not abort the conversion of the remaining rules.
+                self.errors.append((rule, SigmaConversionError(rule, rule.source, str(e) + msg)))
+                return []
             if len(e.args) > 1:
                 e.args = (e.args[0] + msg,) + e.args[1:]
             else:
